@@ -1,0 +1,21 @@
+//go:build verif
+
+package jrpc2
+
+import (
+	"context"
+
+	"github.com/indexsupply/shovel/eth"
+)
+
+// Hooks of property C18 (data-race freedom): the head cache on its own.
+
+func VerifRaceNumHash(maxreads int) *NumHash { return &NumHash{maxreads: maxreads} }
+
+func (nh *NumHash) VerifRaceError(err error) { nh.error(err) }
+
+func (nh *NumHash) VerifRaceUpdate(n uint64, h []byte) { nh.update(eth.Uint64(n), h) }
+
+func (nh *NumHash) VerifRaceGet(ctx context.Context, n uint64) (uint64, []byte, bool) {
+	return nh.get(ctx, n)
+}
